@@ -190,6 +190,7 @@ def prepare(ctx):
             rc, out, _ = go_build_atomic(cmd_r[:cmd_r.index('-o')], os.path.join(BUILD, 'kvharness-race'), hdir, 1200)
             if rc != 0:
                 ctx.broken.append(('build', 'race harness does not build: ' + out[-600:]))
+        snapshot_binaries(ctx)
 
 
 def import_closure(module):
@@ -263,8 +264,31 @@ def audit(ctx, proofs_built):
 # step 3-4: differential runs and oracles
 # ----------------------------------------------------------------------------------------------------------
 
+# binaries of THIS run: private copies taken at the end of prepare(), so that a rebuild by a concurrent check (or a change of
+# the source while a long run is in progress) cannot swap the code under a running check (the crash component re-executes
+# its own binary for every kill point: plan and children must come from one build)
+BIN = {}
+
+
+def snapshot_binaries(ctx):
+    d = os.path.join(ctx.work, 'bin')
+    os.makedirs(d, exist_ok=True)
+    for name, src in (('kvharness', os.path.join(BUILD, 'kvharness')), ('kvharness-race', os.path.join(BUILD, 'kvharness-race')),
+                      ('kvmodel', os.path.join(LEAN, '.lake', 'build', 'bin', 'kvmodel'))):
+        if os.path.exists(src):
+            dst = os.path.join(d, name)
+            shutil.copy2(src, dst)
+            BIN[name] = dst
+
+
+def exe_path(name):
+    if name in BIN:
+        return BIN[name]
+    return os.path.join(LEAN, '.lake', 'build', 'bin', 'kvmodel') if name == 'kvmodel' else os.path.join(BUILD, name)
+
+
 def run_impl(comp, script_path, out_path, race=False, timeout=600, env=None):
-    exe = os.path.join(BUILD, 'kvharness-race' if race else 'kvharness')
+    exe = exe_path('kvharness-race' if race else 'kvharness')
     with open(script_path, 'rb') as i, open(out_path, 'wb') as o:
         e = dict(os.environ)
         e.setdefault('GOMEMLIMIT', '3GiB')
@@ -275,7 +299,7 @@ def run_impl(comp, script_path, out_path, race=False, timeout=600, env=None):
 
 
 def run_model(comp, script_path, out_path, timeout=900):
-    exe = os.path.join(LEAN, '.lake', 'build', 'bin', 'kvmodel')
+    exe = exe_path('kvmodel')
     with open(script_path, 'rb') as i, open(out_path, 'wb') as o:
         rc, err, dt = sh([exe, comp], stdin=i, stdout=o, timeout=timeout)
     return rc, err
@@ -377,7 +401,7 @@ def evaluate(ctx, comp, script, impl, model, crashes):
 
 
 def gen_script(ctx, comp, seed, n):
-    exe = os.path.join(BUILD, 'kvharness')
+    exe = exe_path('kvharness')
     rc, out, _ = sh([exe, comp.name, 'gen', '-seed', str(seed), '-n', str(n), '-tier', ctx.tier], timeout=300)
     if rc != 0:
         raise RuntimeError('generator failed: ' + out[-300:])
